@@ -20,6 +20,12 @@ Streams
   C10.locale  (props/_c10x.py) the handler loop in a child process under an ASCII / UTF-8 locale on non-ASCII texts and lone
               surrogates: the JSON backend saves under every locale; the XML backend's failures are predicted and classified.
 
+Backends: the FILE backends attached to a run (json / xml / junit, any non-empty combination, any order — what `--reporting json junit`
+gives) are an input of C10.snap (generated streams and real runs) and C10.cli; every attached backend's save is wrapped (`save_errors`);
+the JUnit file has no loader: it must be well-formed XML at every promised point and is compared with `Junit.toJunit`; a raising save
+of one backend and the files of the others it freezes are both reported (`C10/save-raised/<backend>/<class>`,
+`C10/stale-after-raising-save/<kind>-stopped-by-<backend>`).
+
 Texts: a quarter of the C10.snap cases ("wild") carry every string class of gen.reports (lone surrogates, C0 controls, CR, empty,
 U+FFFE, …) through the run; node names are drawn from the class with dots / dashes / punctuation / non-ASCII; a save that RAISES is
 observed (`save_errors`) and is a violation (`C10/save-raised/<backend>/<class>`), except for the XML format's known text limits
@@ -55,6 +61,8 @@ TRUSTED_BASE = [
     "decision tables regenerated on every run by executing FileReportSession's handlers and the strategy functions "
     "of savingstrategy.py on every event class x result status x node naming (plain, dotted test, dotted suite, both), and "
     "get_report_saving_strategy behind the real argparse definitions on --save-report x $LCC_SAVE_REPORT, re-proved by `decide`",
+    "hand-written model Model/Junit.lean of reporting/backends/junit.py (element tree, `duration or 0`, the times it cannot do without), "
+    "compared with every JUnit file the sessions write",
     "hand-written models Model/JsonFile.lean + Model/JsonRender.lean (text of report.js: every string through the ensure_ascii escaping; "
     "how numbers and times are spelled is a parameter that only has to be ASCII) and Store.xmlSaveOkEnc (the XML text is written raw)",
     "the status of the result an end event is about is read by the check's own walk of the report objects (own_result_status), not "
@@ -418,8 +426,26 @@ class patched_clock:
         B.time, SS.time = self.saved
 
 
+def junit_doc(path):
+    """the JUnit file has no loader: it must be well-formed XML; → {"junit": canonical element tree} or a classified failure.
+    (tag, attributes except the time figures, children; the model side is `Junit.toJunit`)"""
+    import xml.etree.ElementTree as ET
+
+    def canon(e):
+        return {"tag": e.tag, "attrs": [[k, v] for k, v in e.attrib.items() if k not in ("time", "timestamp")],
+                "children": [canon(c) for c in e]}
+    try:
+        with open(path, "r") as fh:
+            root = ET.parse(fh).getroot()
+    except Exception as e:      # classified: a file that cannot be parsed is what the property forbids
+        return {"error": type(e).__name__, "msg": str(e)[:200]}
+    return {"junit": canon(root)}
+
+
 def load_nf(path):
     """real loader → normal form, or a classified failure"""
+    if os.path.basename(path) == "report-junit.xml":
+        return junit_doc(path)
     from lemoncheesecake.reporting.loader import load_report
     try:
         rep = load_report(path)
@@ -948,14 +974,25 @@ def run_real(spec, specs, top):
                                 "stray": sorted(f for f in os.listdir(os.path.dirname(path)) if f != os.path.basename(path))})
     out["status_after"] = {str(k): v for k, v in obs.status_after.items()}
     # the final report of a real run is compared as it is saved (millisecond text), see above
-    fin0 = out["sessions"][0]["final"]
-    out["final_report"] = fin0["nf"] if fin0 and "nf" in fin0 else R.nf_report(report)
+    fin0 = next((x["final"] for x in out["sessions"] if x["final"] and "nf" in x["final"]), None)
+    out["final_report"] = fin0["nf"] if fin0 else R.nf_report(report)
     return recorded, out
 
 
 # ------------------------------------------------------------------------------------------------
 # C10.snap
 # ------------------------------------------------------------------------------------------------
+
+def _mid_test(events, k):
+    """after the first k events, is some test started and not ended?"""
+    open_tests = set()
+    for e in events[:k]:
+        if e["e"] == "testStart":
+            open_tests.add(tuple(e["path"]))
+        elif e["e"] == "testEnd":
+            open_tests.discard(tuple(e["path"]))
+    return bool(open_tests)
+
 
 def _results_in(events):
     return sum(1 for e in events if e["e"] in ("testStart", "testSkipped", "testDisabled", "suiteSetupStart",
@@ -1037,7 +1074,7 @@ def _nf(obs, load):
 def save_raised_signature(kind, cls, profile, locale="utf8"):
     """a save that raised: the classes that are the XML format's known text limits (C09 / D8, seen from C10) have their own
     signatures; everything else is `C10/save-raised/<backend>/<exception class>`"""
-    if kind == "xml" and cls == "UnicodeEncodeError":
+    if kind in ("xml", "junit") and cls == "UnicodeEncodeError":       # both write ElementTree text raw to a locale-encoded file
         if "lone-surrogate" in profile:
             return "C10/xml-text-limit/lone-surrogate-save-raises"
         if locale != "utf8" and "non-ascii" in profile:
@@ -1060,10 +1097,28 @@ def check_sessions(events, handled, failure, sessions, status_after, final_repor
             raise RuntimeError("handler raised %s after %d/%d events of a well-formed stream" % (failure, handled, len(events)))
         for s, (n_before, cls, msg) in raised:
             kind, _, expr = s["spec"]
+            # the consequence on the OTHER backends attached to the same loop: their files are frozen from here on
+            frozen = []
+            for o in sessions:
+                okind, _, oexpr = o["spec"]
+                if okind == kind or oexpr.startswith("every"):
+                    continue
+                got = [c["k"] for c in o["copies"]]
+                lost = [k for k in promised_points(oexpr, events, status_after) if k not in got]
+                if lost:
+                    frozen.append("%s/%s misses %d promised refresh(es)%s" % (
+                        okind, oexpr, len(lost), " incl. the save at the end of the run" if events[lost[-1] - 1]["e"] == "sessionEnd" else ""))
             fails.append(C.Failure(save_raised_signature(kind, cls, profile, locale),
                                    "%s/%s: save #%d raised %s (%s) while handling event %d of %d: the file is not refreshed, event "
-                                   "handling stops, the report is not saved at the end of the run"
-                                   % (kind, expr, n_before + 1, cls, msg, handled + 1, len(events))))
+                                   "handling stops for every backend, nothing is saved at the end of the run%s"
+                                   % (kind, expr, n_before + 1, cls, msg, handled + 1, len(events),
+                                      ("; stale files of the other backends: " + "; ".join(frozen[:4])) if frozen else "")))
+            for o in sessions:
+                if o["spec"][0] != kind and any(f.startswith("%s/%s " % (o["spec"][0], o["spec"][2])) for f in frozen):
+                    sig = "C10/stale-after-raising-save/%s-stopped-by-%s" % (o["spec"][0], kind)
+                    if not any(f.signature == sig for f in fails):
+                        fails.append(C.Failure(sig, "a raising %s save (%s) stopped the event loop: %s" % (kind, cls, "; ".join(
+                            f for f in frozen if f.startswith(o["spec"][0] + "/"))[:300])))
     for s in sessions:
         kind, _, expr = s["spec"]
         final = s["final"]
@@ -1071,13 +1126,13 @@ def check_sessions(events, handled, failure, sessions, status_after, final_repor
         for c in s["copies"]:
             if "error" in c["load"]:
                 sig = "C10/snapshot/unloadable/" + kind
-                if kind == "xml" and "non-xml-char" in profile:
+                if kind in ("xml", "junit") and "non-xml-char" in profile:
                     sig = "C10/xml-text-limit/non-xml-char-unloadable"
                 fails.append(C.Failure(sig, "%s: the file saved after event %d does not load: %s" % (tag, c["k"], c["load"])))
                 continue
             # prefix of the final report: the last file (normal form) or, without one, the real in-memory report at the end
             ref_final = nf_of(final) if final is not None and "nf" in final else final_report
-            why = nf_prefix(nf_of(c["load"]), ref_final) if ref_final is not None else []
+            why = nf_prefix(nf_of(c["load"]), ref_final) if ref_final is not None and "nf" in c["load"] else []
             if why:
                 fails.append(C.Failure("C10/snapshot/not-prefix/" + kind,
                                        "%s: the file saved after event %d is not a prefix of the final report: %s"
@@ -1100,7 +1155,24 @@ def check_sessions(events, handled, failure, sessions, status_after, final_repor
         if got and final is not None and "nf" in final and "nf" in s["copies"][-1]["load"] \
                 and nf_of(final) != nf_of(s["copies"][-1]["load"]):
             fails.append(C.Failure("C10/file-changed-without-save", "%s: file differs from the last observed save" % tag))
+        if got and final is not None and "junit" in final and final.get("junit") != s["copies"][-1]["load"].get("junit"):
+            fails.append(C.Failure("C10/file-changed-without-save", "%s: file differs from the last observed save" % tag))
     return fails
+
+
+def gen_backends(rng):
+    """the FILE backends attached to the run, in subscription order (what `--reporting json junit` / a project's
+    `default_reporting_backend_names` give): any non-empty combination of json / xml / junit, any order"""
+    r = rng.random()
+    if r < 0.45:
+        kinds = ["json", "xml", "junit"]
+    elif r < 0.85:
+        kinds = rng.choice([["json", "junit"], ["json", "xml"], ["xml", "junit"], ["json", "junit"]])
+    else:
+        kinds = [rng.choice(["json", "xml", "junit"])]
+    kinds = list(kinds)
+    rng.shuffle(kinds)
+    return kinds
 
 
 class Snap(C.Stream):
@@ -1132,7 +1204,8 @@ class Snap(C.Stream):
         # the JSON sessions must carry them; the XML backend cannot (C09 / D8) and gets a run of its own, classified
         texts = rng.choice(["plain", "plain", "safe", "wild"])
         if r < 0.16:
-            return {"kind": "real", "spec": gen_real_spec(rng, texts), "variant": variant, "alias": alias, "texts": texts}
+            return {"kind": "real", "spec": gen_real_spec(rng, texts), "variant": variant, "alias": alias, "texts": texts,
+                    "backends": ["json"] if texts == "wild" else gen_backends(rng)}
         mode = texts if texts == "wild" else None
         events, nb = gen_stream(rng, max_depth=rng.choice([2, 3, 3]), mode=mode)
         if len(events) > 160:
@@ -1147,17 +1220,20 @@ class Snap(C.Stream):
         for _ in range(2 * len(events) + 4):
             t += rng.choice([0, 250, 250, 500, 750, 1000, 1750, 4000])
             clock.append(t)
+        backends = gen_backends(rng)
         case = {"kind": "gen", "label": label, "events": events, "nb_threads": nb, "variant": variant, "alias": alias,
-                "every": every, "every_backend": rng.choice(["json", "xml"]), "clock": clock}
+                "every": every, "every_backend": rng.choice(backends), "clock": clock, "backends": backends}
         if texts == "wild":
-            case.update(texts="wild", every_backend="json", xml_strategy=rng.choice(STATIC))
+            # the XML and JUnit backends write ElementTree text raw: a session of one of them, in a loop of its own
+            case.update(texts="wild", every_backend="json", xml_strategy=rng.choice(STATIC), limited_kind=rng.choice(["xml", "xml", "junit"]),
+                        backends=["json"])
         return case
 
     @staticmethod
     def _specs(case):
         log = "at_each_event" if case.get("alias") else "at_each_log"
         exprs = ["at_end_of_tests", "at_each_suite", "at_each_test", "at_each_failed_test", log]
-        kinds = ("json",) if case.get("texts") == "wild" else ("json", "xml")
+        kinds = case.get("backends") or (("json",) if case.get("texts") == "wild" else ("json", "xml"))
         return [(kind, case.get("variant", 0), e) for e in exprs for kind in kinds]
 
     def impl(self, case):
@@ -1174,9 +1250,11 @@ class Snap(C.Stream):
             obs2 = run_stream(case["events"], case["nb_threads"], espec, os.path.join(top, "b"), clock_seq=case["clock"])
             obs["every"] = obs2["sessions"][0]
             obs["every_handled"] = obs2["handled"]
+            obs["every_failure"] = obs2["failure"]
             if case.get("xml_strategy"):
                 # the XML backend on texts its format cannot carry: a run of its own (a raising save stops the whole handler loop)
-                obs3 = run_stream(case["events"], case["nb_threads"], [("xml", 0, case["xml_strategy"])], os.path.join(top, "x"))
+                obs3 = run_stream(case["events"], case["nb_threads"], [(case.get("limited_kind", "xml"), 0, case["xml_strategy"])],
+                                  os.path.join(top, "x"))
                 obs["xml_run"] = {"handled": obs3["handled"], "failure": obs3["failure"], "session": obs3["sessions"][0]}
             return _intern(obs)
         finally:
@@ -1190,9 +1268,11 @@ class Snap(C.Stream):
         if case.get("label", "wf") != "wf":
             return []          # ill-formed streams cannot come out of a run (C07); only the model is compared
         events = self._events(case, obs)
-        sessions = list(obs["sessions"]) + ([obs["every"]] if "every" in obs else [])
-        fails = check_sessions(events, obs["handled"], obs["failure"], sessions, obs["status_after"], obs["final_report"],
+        fails = check_sessions(events, obs["handled"], obs["failure"], list(obs["sessions"]), obs["status_after"], obs["final_report"],
                                lambda load: _nf(obs, load))
+        if "every" in obs:      # a handler loop of its own (scripted clock)
+            fails += check_sessions(events, obs["every_handled"], obs.get("every_failure"), [obs["every"]], obs["status_after"],
+                                    obs["final_report"], lambda load: _nf(obs, load))
         if "xml_run" in obs:
             x = obs["xml_run"]
             fails += check_sessions(events, x["handled"], x["failure"], [x["session"]], obs["status_after"], None,
@@ -1218,11 +1298,15 @@ class Snap(C.Stream):
         req = {"op": "snap", "events": R.wire(events), "nb_threads": nb, "strategies": strategies,
                "clock": case.get("clock", [0]), "want": want}
         if "xml_run" in obs:
-            req["xml_sessions"] = [{"s": strat_wire(case["xml_strategy"]), "enc": "utf8"}]
+            req["xml_sessions"] = [{"s": strat_wire(case["xml_strategy"]), "enc": "utf8", "kind": case.get("limited_kind", "xml")}]
         elif any(s.get("save_errors") for s in obs["sessions"]):
-            # a save raised inside the common handler loop (an ill-formed stream: e.g. the session start was dropped and the XML
-            # serialiser cannot format a missing start time): the model of every XML session says where (`sessRunG`)
-            req["xml_sessions"] = [{"s": strat_wire(e), "enc": "utf8"} for kind, _, e in specs if kind == "xml"]
+            # a save raised inside the common handler loop (an ill-formed stream: e.g. the session start was dropped and the XML /
+            # JUnit serialisers cannot do without a start time): the model of every XML / JUnit session says where (`sessRunG`)
+            req["xml_sessions"] = [{"s": strat_wire(e), "enc": "utf8", "kind": kind} for kind, _, e in specs if kind in ("xml", "junit")]
+        # the JUnit documents (no loader: compared with `Junit.toJunit` of the report after k events)
+        jk = sorted({c["k"] for s in obs["sessions"] if s["spec"][0] == "junit" for c in s["copies"] if "junit" in c["load"]})
+        if jk:
+            req["junit_want"] = jk if len(jk) <= 10 else sorted(set(random.Random(len(jk)).sample(jk, 8)) | {jk[0], jk[-1]})
         return req
 
     def compare(self, case, obs, ans):
@@ -1253,11 +1337,18 @@ class Snap(C.Stream):
         if final_m != obs["final_report"]:
             return "final report differs: " + _first_diff(final_m, obs["final_report"])
         unique = sibling_names_unique(final_m)
+        jdocs = {k: d for k, d in ans.get("junit_docs", [])}
         for s, m in zip(sessions, ans["strategies"]):
             got = [c["k"] for c in s["copies"]]
             if got != m["saves"]:
                 return "%s: save points differ: implementation %s, model %s" % (s["spec"], got, m["saves"])
             for c in s["copies"]:
+                if c["k"] in jdocs and "junit" in c["load"]:
+                    if jdocs[c["k"]] is None:
+                        return "%s: the JUnit file saved after event %d exists, the model's serialiser raises" % (s["spec"], c["k"])
+                    dj = _first_diff(junit_model_doc(jdocs[c["k"]]), c["load"]["junit"])
+                    if not dj.endswith(": equal"):
+                        return "%s: JUnit document after event %d differs (model vs file): %s" % (s["spec"], c["k"], dj)
                 if c["k"] in reports and "nf" in c["load"]:
                     if _nf(obs, c["load"]) != reports[c["k"]]:
                         return "%s: content of the snapshot after event %d differs: %s" % (
@@ -1295,6 +1386,15 @@ class Snap(C.Stream):
         if any(v == "failed" for v in obs["status_after"].values()):
             f.append("has-failed-result")
         f.append("texts=" + case.get("texts", "plain-or-safe"))
+        if case.get("backends"):
+            f.append("backends=" + "+".join(case["backends"]))
+            if "junit" in case["backends"]:
+                f.append("junit-attached")
+                mid = [c for s in obs["sessions"] if s["spec"][0] == "junit" for c in s["copies"] if "junit" in c["load"]]
+                if any(_mid_test(events, c["k"]) for c in mid):
+                    f.append("junit-saved-while-a-test-is-in-progress")
+        if case.get("limited_kind"):
+            f.append("limited-run-kind=" + case["limited_kind"])
         f += ["text:" + c for c in text_profile(events)]
         if "xml_run" in obs:
             x = obs["xml_run"]
@@ -1339,6 +1439,13 @@ class Snap(C.Stream):
                     yield dict(case, events=rest)
 
 
+def junit_model_doc(d):
+    """the driver's element tree of `Junit.toJunit` in the shape of `junit_doc` (numbers as text, time figures dropped)"""
+    return {"tag": d["tag"],
+            "attrs": [[k, str(v) if isinstance(v, int) else R.unwire_str(v)] for k, v in d["attrs"] if k not in ("time", "timestamp")],
+            "children": [junit_model_doc(c) for c in d["children"]]}
+
+
 def compare_stopped_by_save(obs, ans):
     """the common handler loop of a C10.snap run was stopped by a raising save: the model's XML sessions (`sessRunG`) must
     predict a raising save at that very event, and every session's saves up to there"""
@@ -1349,12 +1456,15 @@ def compare_stopped_by_save(obs, ans):
         return "a save raised in the implementation (%s), the model predicts none" % (raised[:2],)
     if min(stops) != obs["handled"]:
         return "the loop stopped after %d events (%s), the model's first raising XML save comes after %d" % (obs["handled"], raised[:2], min(stops))
-    if any(s["spec"][0] != "xml" for s in obs["sessions"] if s["save_errors"]):
-        return "a save of another backend than xml raised: %s" % (raised[:2],)
+    if any(s["spec"][0] not in ("xml", "junit") for s in obs["sessions"] if s["save_errors"]):
+        return "a save of another backend than xml / junit raised: %s" % (raised[:2],)
     xi = 0
     for s, m in zip(obs["sessions"], ans["strategies"]):
         saves = m["saves"]
-        if s["spec"][0] == "xml":
+        if s["spec"][0] in ("xml", "junit"):
+            if xml_models[xi]["err"] == "save" and xml_models[xi]["handled"] == obs["handled"] and not s["save_errors"] \
+                    and not any(o["save_errors"] for o in obs["sessions"][:obs["sessions"].index(s)]):
+                return "%s: the model says this session's save raises first, the implementation raised in %s" % (s["spec"], raised[:2])
             saves = xml_models[xi]["saves"]
             xi += 1
         want = [k for k in saves if k <= obs["handled"]]
@@ -1376,7 +1486,7 @@ def compare_xml_session(x, m):
         return "xml session %s: a save raised: implementation %s (%s), model %s" % (sess["spec"], raised, sess.get("save_errors"), m["err"])
     if raised and x["handled"] != m["handled"]:
         return "xml session %s: events handled before the raising save: implementation %d, model %d" % (sess["spec"], x["handled"], m["handled"])
-    loads = ["loaded" if "nf" in c["load"] else "parse-error" for c in sess["copies"]]
+    loads = ["parse-error" if "error" in c["load"] else "loaded" for c in sess["copies"]]
     if loads != m["loads"]:
         return "xml session %s: loadability of the saved files: implementation %s, model %s" % (sess["spec"], loads, m["loads"])
     return None
@@ -1781,6 +1891,10 @@ Snap.corpus += [
     {"kind": "gen", "label": "wf", "nb_threads": 1, "variant": 0, "alias": False, "every": 1, "every_backend": "json",
      "clock": [10_000 + 750 * i for i in range(40)], "texts": "wild", "xml_strategy": "at_each_test",
      "events": _with_text(_CORPUS_EVENTS, "bell \x07")},
+    # every file backend attached, JUnit first (no loader: well-formed at every promised point, never raises): `at_each_log` saves in
+    # the middle of tests `a` and `b` — a JUnit save that raised there would freeze report.js / report.xml as well
+    {"kind": "gen", "label": "wf", "nb_threads": 1, "variant": 0, "alias": False, "every": 0, "every_backend": "junit",
+     "clock": [10_000 + 750 * i for i in range(40)], "events": _CORPUS_EVENTS, "backends": ["junit", "json", "xml"]},
     # ill-formed: the session start is lost, the report has no start time, the first XML save raises TypeError and stops the common
     # handler loop (a past disagreement: the model of the XML sessions, `sessRunG xmlSaveOkEnc`, now predicts where)
     {"kind": "gen", "label": "drop-event", "nb_threads": 1, "variant": 0, "alias": False, "every": 1, "every_backend": "json",
